@@ -1,12 +1,13 @@
 """C08 — TLV models encode to exact, minimal TLV and decode back to equal values."""
 import importlib
+import os
 import struct
 import tlvschema as T
 import pktcommon as PK
 
 PROP = 'C08'
 TITLE = 'TLV models encode to exact, minimal TLV and decode back to equal values'
-LEAN_TARGETS = ['NdnProofs.Props.C08', 'NdnGen.C08']
+LEAN_TARGETS = ['NdnProofs.Props.C08', 'NdnGen.C08', 'NdnProofs.Props.TlvVarGen', 'NdnGen.TlvVar']
 THEOREMS = [
     'Ndn.C08.announced_length_exact', 'Ndn.C08.enc_wellformed', 'Ndn.C08.writeTlNum_shortest',
     'Ndn.C08.uint_smallest_width', 'Ndn.C08.parse_enc_roundtrip',
@@ -18,6 +19,11 @@ THEOREMS = [
     # decoder output is well-formed (any byte string): decode . encode . decode = decode
     'Ndn.C08.parse_wf', 'Ndn.C08.reencode_parses_back', 'Ndn.C08.reencode_succeeds', 'Ndn.C08.reencode_fails_only',
     'Ndn.Codec.parse_accept', 'Ndn.Codec.parse_size', 'Ndn.Codec.reencode_ok',
+    # tlv_var.py TRANSLATED from its source text on every run (harness/py2lean.py -> NdnGen/TlvVar.lean) = the
+    # hand-written model functions the theorems above are about, for all inputs
+    'Ndn.TlvVarGen.all_translated', 'Ndn.TlvVarGen.get_tl_num_size_eq', 'Ndn.TlvVarGen.write_tl_num_eq',
+    'Ndn.TlvVarGen.write_tl_num_neg', 'Ndn.TlvVarGen.pack_uint_bytes_eq', 'Ndn.TlvVarGen.parse_tl_num_eq',
+    'Ndn.TlvVarGen.parse_and_check_tl_eq', 'Ndn.TlvVarGen.shrink_length_eq',
 ]
 PARTIAL = {}
 TRUSTED = [
@@ -26,6 +32,14 @@ TRUSTED = [
     'of a dict) and the MRO / attribute lookup on instances are CPython; a field object bound to two names, and field '
     'objects whose .name was changed after class creation, are outside the model',
     'C08: text fields are UTF-8 bytes in the model; str<->UTF-8 is CPython',
+    'C08 (tlv_var.py): get_tl_num_size, write_tl_num, pack_uint_bytes, parse_tl_num, parse_and_check_tl and shrink_length '
+    'are translated from the source text by harness/py2lean.py (a compositional translator for a delimited subset; '
+    'anything else is reported as not translated) and proved equal to the model functions; trusted there: the '
+    'translator itself (about 500 lines), and lean/NdnModel/PySem.lean, the reading of CPython it maps to (unbounded '
+    'ints as Int, struct.pack / pack_into / unpack on !BHIQ formats incl. their error classes and the Py_ssize_t '
+    'limit on offsets, indexing and slicing with negative indices, memoryview(x) / bytes(x) as the identity on the '
+    'contents, a buffer written through pack_into threaded as a value); arguments are the annotated types (int, '
+    'bytes-like with one-byte items, writable where written)',
 ]
 RULE = ('(a) randomly generated TlvModel classes (random field kinds incl. nested models, repeated, map, markers; type '
         'numbers 1..2^32-1) with random values at width/length boundaries and non-ASCII text; (b) every plain model class '
@@ -60,7 +74,10 @@ LEVEL_TEXT = ('Lean 4 theorems about a generic interpreter of TLV model schemas 
               'bodies and bases: the position bookkeeping is a Python dict of assignments, names once in first-assignment order, '
               'last assignment wins in place, bases that are not included contribute nothing, IncludeBaseError exactly for a '
               'non-base / non-TlvModel, an instance is encoded in that order). The interpreter and the metaclass model are '
-              'tied to tlv_model.py on every run by differential execution on generated and shipped model classes.')
+              'tied to tlv_model.py on every run by differential execution on generated and shipped model classes; the '
+              'TL-number helpers of tlv_var.py (get_tl_num_size, write_tl_num, pack_uint_bytes, parse_tl_num, '
+              'parse_and_check_tl, shrink_length) are tied by translation: their source text is translated to Lean on '
+              'every run and proved equal, for all inputs, to the model functions the theorems use.')
 LEVEL_NOTE = ('Theorems are about the Lean interpreter; interpreter = tlv_model.py is sampled. Marker pseudo-fields (no value) '
               'are outside wfTop; their offsets are covered by C01/C02. struct/memoryview semantics are CPython.')
 TECHNIQUE = 'Lean 4 proof (structural induction over schema trees and field lists) + model/implementation correspondence check'
@@ -1317,9 +1334,20 @@ def _extract_merge():
     return out
 
 
+def _write_tlv_var(repo):
+    """lean/NdnGen/TlvVar.lean: the pure helpers of tlv_var.py translated from the source text of the tree under test
+    (harness/py2lean.py); lean/NdnProofs/Props/TlvVarGen.lean proves them equal to the model functions"""
+    import py2lean
+    lib = __import__('lib')
+    text = py2lean.generate(repo)
+    with lib.Lock(os.path.join(lib.LEAN, '.build.lock')):
+        lib.write_if_changed(os.path.join(lib.LEAN, 'NdnGen', 'TlvVar.lean'), text)
+
+
 def extract(repo):
     lib = __import__('lib')
     lib.setup_repo_path()
+    _write_tlv_var(repo)
     out = ['import NdnModel.CodecWF', 'import NdnModel.ClassMerge',
            '/- GENERATED on every run by harness/props/c08.py from the live `_encoded_fields` of the model classes',
            '   shipped with python-ndn, and (merge_*) from the class namespaces and base classes of the shipped classes that',
